@@ -210,6 +210,7 @@ def gen(rng, tier):
     add("hist/novalue", "hist S:l9:-:5 T X S:l9:0.z.4:5 T X S:l9:-:5 T E S:l9,s9:1.z.2:2 T X S:l9,s9:0.z.1:2 T E")
     for nm in ["Lamp [Kitchen]", "Lamp [1", "a*b?c", "back\\slash", "sp ace", "ü😀", "{x}", "]["]:
         add("hist/dirname", "hist dirname=%s S:l:-:5 PS:c1 T E X S:l:-:5 T E RM:c1:c1 T E X S:l:-:5 T E" % nm.encode().hex())
+    add("hist/bigid", "hist S:sx,l:-:2 T X S:sy,l:-:2 T X S:sy,l:-:2 T X S:sx,l:-:2 T E")
     add("hist/lowercase-id", "hist S:l:-:5 PS:c1 T E X LC S:l:-:5 T E RM:c1:c1 T X S:l:-:5 T E")
     add("hist/lowercase-id", "hist S:b,s:-:2 X LC S:b,s:-:2 PS:c1 T X S:b,s1:-:2 T E")
     add("hist/badpin", "hist S:l:-:5 X pin=11111111 S:l:-:5 T pin=00102003 S:l1:-:5 T E")
@@ -226,6 +227,9 @@ def gen_json(rng, tier):
         else:
             b = mutate_struct(rng, a)
         pairs.append({"id": "j%d" % i, "line": "json %s:%s %s:%s" % (a, gen_vals(rng, a), b, gen_vals(rng, b)), "kind": "json/" + ("same" if a == b else "diff"), "same": a == b})
+    # accessory ids beyond 2^53 that differ by one: different structures (ids are 64-bit integers, not floats)
+    for i, (a, b) in enumerate([("sx", "sy"), ("lx,s", "ly,s"), ("l,sx", "l,sy"), ("b,lx,sy", "b,ly,sy"), ("b,lx", "b,lx")]):
+        pairs.append({"id": "jb%d" % i, "line": "json %s:- %s:-" % (a, b), "kind": "json/" + ("same" if a == b else "diff"), "same": a == b})
     # a characteristic that has no value in one tree and a value in the other (same structure)
     for i, (a, va, vb) in enumerate([("l9", "-", "0.z.4"), ("l9", "0.z.4", "-"), ("b,t9,s9", "1.z.1", "2.z.2"), ("s89", "-", "0.z.7")]):
         pairs.append({"id": "jn%d" % i, "line": "json %s:%s %s:%s" % (a, va, a, vb), "kind": "json/same", "same": True})
